@@ -47,10 +47,16 @@ def table(ctx, tier):
         return json.load(fp)
 
 
-def _line(kind, fn, n, m, perm=(), scale=(), rowmap=(), pat=()):
-    return "%s %s %d %d | %s | %s | %s | %s\n" % (
+VALUE_CLASSES = ["generic", "real", "imag", "realsym", "phase", "mixed",
+                 "smalldiag"]          # order of vc_names in drv_linsys.c
+
+
+def _line(kind, fn, n, m, perm=(), scale=(), rowmap=(), pat=(), vc=None):
+    """vc None: the value class is assigned by rotation in compose()."""
+    return "%s %s %d %d | %s | %s | %s | %s | %s\n" % (
         kind, fn, n, m, " ".join(map(str, perm)), " ".join(map(str, scale)),
-        " ".join(map(str, rowmap)), " ".join(map(str, pat)))
+        " ".join(map(str, rowmap)), " ".join(map(str, pat)),
+        "?" if vc is None else vc)
 
 
 def compose(tbl, tier, seed):
@@ -59,6 +65,10 @@ def compose(tbl, tier, seed):
     quick = tier == "quick"
     lines = []
     ident = lambda n: list(range(1, n + 1))
+    if tbl.get("values") != VALUE_CLASSES:
+        raise vlib.MachineryError("value classes of LinSys.tla and "
+                                  "drv_linsys.c differ: %r" % tbl.get("values"))
+    nvc = len(VALUE_CLASSES)
     # --- conversions: every small pattern x every row permutation
     k = 0
     for s in tbl["small"]:
@@ -194,7 +204,54 @@ def compose(tbl, tier, seed):
                             for rep2 in range(1 if unscaled else 6):
                                 lines.append(_line("applym", str(typ), p, 1,
                                                    rev, v, (), ()))
-    return lines
+    # --- value classes x the structures where the pivot choice matters:
+    #     small zero-diagonal patterns of full structural rank (TLC list),
+    #     the named pivot-forcing families, dense and graded matrices
+    for pv in tbl["pivot"]:
+        for pt in pv:
+            n = int(round(len(pt["p"]) ** 0.5))
+            for vc in range(nvc):
+                for fn in CONV:
+                    lines.append(_line("conv", fn, n, 0, ident(n), (), (),
+                                       pt["p"], vc))
+                lines.append(_line("ab", "-", n, 0, ident(n), (), (),
+                                   pt["p"], vc))
+                if n == 2:
+                    lines.append(_line("abadd", "-", 2, 0, ident(2), (), (),
+                                       pt["p"], vc))
+    for b in tbl["big"]:
+        n = b["n"]
+        for pt in b["pats"]:
+            if pt["name"] not in ("zerodiag", "antidiag", "cyclic", "arrow",
+                                  "tridiag"):
+                continue
+            for vc in range(nvc):
+                for fn in ("ztoy", "ytoz", "ztos"):
+                    lines.append(_line("conv", fn, n, 0, ident(n), (), (),
+                                       pt["p"], vc))
+                if n <= 5:
+                    lines.append(_line("ab", "-", n, 0, ident(n), (), (),
+                                       pt["p"], vc))
+    for n in range(2, 9):
+        for vc in range(nvc):
+            for gr in (0, 10):
+                for fn in CONV:
+                    for r in range(1 if quick else 12):
+                        lines.append(_line("conv", fn, n, gr, (), (), (), (),
+                                           vc))
+                if n <= 5:
+                    lines.append(_line("ab", "-", n, gr, (), (), (), (), vc))
+    # every other case gets its value class by rotation (per kind)
+    counters = {}
+    out = []
+    for ln in lines:
+        if ln.endswith("| ?\n"):
+            kind = ln.split(" ", 1)[0]
+            c = counters.get(kind, 0)
+            counters[kind] = c + 1
+            ln = ln[:-2] + "%d\n" % (c % nvc)
+        out.append(ln)
+    return out
 
 
 def build(ctx):
@@ -227,23 +284,26 @@ def _pclass(ev):
 def _argclass(ev):
     e = ev.get("e")
     if e == "Conv":
-        return "%s:n%s:zv%s:gr%s:%s:dup%d:sc%s" % (
-            ev.get("fn"), ev.get("n"), ev.get("zv"), ev.get("gr"), _pclass(ev),
+        return "%s:n%s:zv%s:gr%s:%s:%s:dup%d:sc%s" % (
+            ev.get("fn"), ev.get("n"), ev.get("zv"), ev.get("gr"),
+            ev.get("vc"), _pclass(ev),
             1 if len(set(ev.get("rowmap", []))) < len(ev.get("rowmap", []))
             else 0, ev.get("scaled"))
     if e in ("ApplyAB", "AddAB"):
-        return "n%s:%s:dup%d" % (
-            ev.get("n"), _pclass(ev),
+        return "n%s:%s:%s:dup%d" % (
+            ev.get("n"), ev.get("vc"), _pclass(ev),
             1 if len(set(ev.get("rowmap", []))) < len(ev.get("rowmap", []))
             else 0)
     if e == "Solve":
         rm = ev.get("rowmap", [])
-        return "%s:m%s:d%d:zero%s" % (ev.get("type"), ev.get("m"),
-                                       len(set(rm)), ev.get("zero"))
+        return "%s:%s:m%s:d%d:zero%s" % (ev.get("type"), ev.get("vc"),
+                                          ev.get("m"), len(set(rm)),
+                                          ev.get("zero"))
     if e == "ApplyM":
         sc = ev.get("sc", [])
-        return "%s:p%s:%s:%s" % (ev.get("type"), ev.get("p"), ev.get("det"),
-                                 "scaled" if any(sc) else "unscaled")
+        return "%s:%s:p%s:%s:%s" % (ev.get("type"), ev.get("vc"),
+                                    ev.get("p"), ev.get("det"),
+                                    "scaled" if any(sc) else "unscaled")
     return "-"
 
 
@@ -318,6 +378,10 @@ def _tally(path, stats):
                 continue
             k = ev["e"]
             stats["by_kind"][k] = stats["by_kind"].get(k, 0) + 1
+            vk = "%s/%s" % (k, ev.get("vc"))
+            stats.setdefault("by_value_class", {})
+            stats["by_value_class"][vk] = \
+                stats["by_value_class"].get(vk, 0) + 1
             if ev.get("qual") == 0:
                 stats["unqualified"] = stats.get("unqualified", 0) + 1
             if k == "ApplyM" and any(ev.get("sc", [])):
